@@ -27,9 +27,15 @@ import traceback
 from concurrent.futures import ThreadPoolExecutor
 from fractions import Fraction
 
-import numpy as np
+# OpenMP: the workers below oversubscribe the cores on purpose (several
+# processes, up to 4 threads each); spinning waits would make that crawl
+os.environ.setdefault('OMP_WAIT_POLICY', 'PASSIVE')
+os.environ.setdefault('GOMP_SPINCOUNT', '0')
+os.environ.setdefault('OMP_DYNAMIC', 'FALSE')
 
-import hcommon as H
+import numpy as np  # noqa: E402
+
+import hcommon as H  # noqa: E402
 
 H.assert_scratch_import()
 from pysph.base.utils import get_particle_array  # noqa: E402
@@ -231,7 +237,7 @@ def gen_scenario(rng, sid, big=False, force=None):
         steps.append(ops)
     scn = {'sid': sid, 'gen': gen, 'dim': dim, 'rs': [rs_n, rs_d], 'unit': U,
            'arrays': arrays, 'steps': steps,
-           'threads': rng.choice([1, 2, 4, 16])}
+           'threads': rng.choice([1, 1, 2, 3, 4])}
     scn['cfgs'] = {c: _pick_knobs(rng, c, None) for c in CLASSES}
     return scn
 
